@@ -70,7 +70,7 @@ def _chunk_worker(args):
     for i in range(lo, hi):
         seed = seed_for(master, pid, i)
         try:
-            plan = mod.gen(seed, tier)
+            plan = mod.gen_index(i, seed, tier) if hasattr(mod, "gen_index") else mod.gen(seed, tier)
         except Exception:  # pylint: disable=broad-except
             agg["errors"].append({"seed": seed, "error": traceback.format_exc(limit=8)})
             continue
